@@ -894,12 +894,13 @@ class XPathToken(Token[ta.XPathTokenType]):
                 return str(obj).upper()
 
             value = str(obj)
-            if '.' in value:
-                value = value.rstrip('0').rstrip('.')
-            if '+' in value:
-                value = value.replace('+', '')
             if 'e' in value:
-                return value.upper()
+                mantissa, _, exponent = value.partition('e')
+                if '.' in mantissa:
+                    mantissa = mantissa.rstrip('0').rstrip('.')
+                return '{}E{}'.format(mantissa, exponent.replace('+', ''))
+            elif '.' in value:
+                value = value.rstrip('0').rstrip('.')
             return value
 
         elif isinstance(obj, self.registry.function_token):
